@@ -3,6 +3,7 @@ package destination
 import (
 	"errors"
 	"fmt"
+	"math"
 	"strings"
 	"sync"
 	"time"
@@ -73,11 +74,11 @@ func New(routeName string, matcher matcher.Matcher, addr, spoolDir string, spool
 	if periodFlush <= 0 || periodReConn <= 0 {
 		return nil, errors.New("destination: flush and reconn must be > 0")
 	}
-	if ioBufSize <= 0 || connBufSize < 0 {
-		return nil, errors.New("destination: iobuf must be > 0 and connbuf must be >= 0")
+	if ioBufSize <= 0 || ioBufSize > math.MaxInt32 || connBufSize < 0 || connBufSize > math.MaxInt32 {
+		return nil, errors.New("destination: iobuf must be in 1..2^31-1 and connbuf in 0..2^31-1")
 	}
-	if spool && (spoolSyncPeriod <= 0 || spoolBufSize < 0 || spoolSleep < 0 || unspoolSleep < 0) {
-		return nil, errors.New("destination: spoolsyncperiod must be > 0 and spoolbuf, spoolsleep, unspoolsleep must be >= 0")
+	if spool && (spoolSyncPeriod <= 0 || spoolBufSize < 0 || spoolBufSize > math.MaxInt32 || spoolSleep < 0 || unspoolSleep < 0) {
+		return nil, errors.New("destination: spoolsyncperiod must be > 0, spoolbuf in 0..2^31-1 and spoolsleep, unspoolsleep >= 0")
 	}
 	key := util.Key(routeName, addr)
 	addr, instance := addrInstanceSplit(addr)
